@@ -42,6 +42,7 @@ func checkC06(c *Ctx, r *Report) {
 	borrow(c, r, c07R2, "C07.R2.generate", "C06.R5.generate-range", 1, "$GENERATE refuses a range by its number of steps, not by the distance between start and stop", func(k string) bool { return strings.Contains(k, "range-guard") }, "a range with a step above one whose distance exceeds 65535 while its step count does not is refused")
 	originQualified(c, r, "C06.R2.origin-qualified", "the origin given as the parser option (and inherited by $INCLUDE and $GENERATE sub-parsers) is not the name relative names are completed with as it was given: it is not fully qualified, or its case is changed")
 	classTtlStates(c, r, "C06.R3.class-ttl-states")
+	borrow(c, r, c05R5, "C05.R5.ttl-range", "C06.R3.ttl-range", 1, "stringToTTL accepts every value of the 32-bit field", nil, "the largest TTL, in digits or in units, is refused on a record line, in $TTL, in a $GENERATE template and as an SOA timer")
 }
 
 // mustPassExit is mustPass restricted to the exits accepted by isExit.
